@@ -206,7 +206,7 @@ class Interp:
         fr.is_gen = any(isinstance(n, (ast.Yield, ast.YieldFrom)) for n in astq.walk_function(fi.node))
         self.depth += 1
         try:
-            self.exec_block(fr, fi.node.body)
+            self.exec_block(fr, self._body_of(fi))
         finally:
             self.depth -= 1
         heaps = list(fr.ret_heaps) + ([self.heap] if fr.alive or not fr.ret_heaps else [])
@@ -718,16 +718,38 @@ class Interp:
     _e_GeneratorExp = _e_ListComp
     _e_SetComp = _e_ListComp
 
+    def _body_of(self, fi):
+        """The statements of a function with its loops over literal tables written out (for name, fn in (("a", f), ("b", g))):
+        each iteration is interpreted with its own constants instead of their join."""
+        cache = self.__dict__.setdefault("_unrolled", {})
+        if fi.qualname not in cache:
+            body = fi.node.body
+            try:
+                if any(isinstance(n, ast.For) and isinstance(n.iter, (ast.Tuple, ast.List, ast.Name)) for n in astq.walk_function(fi.node)):
+                    body = astq.unroll_literal_loops(fi.node).body
+            except Exception:
+                body = fi.node.body
+            cache[fi.qualname] = body
+        return cache[fi.qualname]
+
     def _e_DictComp(self, fr, e):
         # {k: g(k) for k in ("a", "b", ...)}: one cell per literal key
-        if len(e.generators) == 1 and not e.generators[0].ifs and isinstance(e.generators[0].iter, (ast.Tuple, ast.List)) \
-                and e.generators[0].iter.elts and all(isinstance(x, ast.Constant) and isinstance(x.value, str) for x in e.generators[0].iter.elts):
+        lit_keys = None
+        if len(e.generators) == 1 and not e.generators[0].ifs:
+            it0 = e.generators[0].iter
+            if isinstance(it0, (ast.Tuple, ast.List)) and it0.elts and all(isinstance(x, ast.Constant) and isinstance(x.value, str) for x in it0.elts):
+                lit_keys = [x.value for x in it0.elts]
+            elif isinstance(it0, ast.Name):   # keys = ("a", "b"); {k: d[k] for k in keys}
+                tv = self.eval(fr, it0)
+                if isinstance(tv, Tup) and tv.elts and all(isinstance(x, Const) and isinstance(x.value, str) for x in tv.elts):
+                    lit_keys = [x.value for x in tv.elts]
+        if lit_keys:
             g = e.generators[0]
             saved = dict(fr.env)
             cells = {}
             ok = True
-            for x in g.iter.elts:
-                self.assign(fr, g.target, Const(x.value), None)
+            for xv_ in lit_keys:
+                self.assign(fr, g.target, Const(xv_), None)
                 kv = self.eval(fr, e.key)
                 if not (isinstance(kv, Const) and isinstance(kv.value, str)):
                     ok = False
@@ -991,6 +1013,10 @@ class Interp:
             for a in e.args[1:] if fnm == "islice" else []:
                 self.eval(fr, a)
             return self.new_list(self.iter_elem(fr, e))
+        if norm(e.func) == "getattr" and len(e.args) in (2, 3) and not e.keywords:
+            nm = self.eval(fr, e.args[1])
+            if isinstance(nm, Const) and isinstance(nm.value, str):
+                return self.getattr(fr, self.eval(fr, e.args[0]), nm.value, e)
         if norm(e.func) == "bool" and len(e.args) == 1 and not e.keywords:
             t = self.truth(fr, e.args[0])
             if t is True or t is False:
